@@ -174,6 +174,32 @@ func (sv *Solver) solve(name, script string, modelTerms []string, wantSat bool) 
 	return res
 }
 
+// solveQuick: one quick race (no long stage, no model): used for batched queries, whose only useful answer is unsat.
+func (sv *Solver) solveQuick(name, script string) *SolveResult {
+	h := sha256.Sum256([]byte(script))
+	key := "q" + hex.EncodeToString(h[:8])
+	sv.mu.Lock()
+	if r, ok := sv.cache[key]; ok {
+		sv.mu.Unlock()
+		return r
+	}
+	sv.mu.Unlock()
+	file := filepath.Join(sv.outDir, sanitize(name)+"-"+key+".smt2")
+	os.WriteFile(file, []byte(script+"(check-sat)\n"), 0o644)
+	defer os.Remove(file)
+	best, all := race([]solverSpec{solvers[0], solvers[2]}, file, sv.quickT)
+	res := &SolveResult{Answer: best.answer, Solver: best.name, Seconds: best.el}
+	sv.mu.Lock()
+	for _, r := range all {
+		sv.totalS += r.el
+		sv.queries++
+	}
+	sv.byBackend[res.Solver+":batch-"+res.Answer]++
+	sv.cache[key] = res
+	sv.mu.Unlock()
+	return res
+}
+
 func (sv *Solver) getModel(file, script string, terms []string) map[string]string {
 	mfile := strings.TrimSuffix(file, ".smt2") + ".model.smt2"
 	var sb strings.Builder
